@@ -23,7 +23,7 @@ CHECKS = {
          "Closure over submissions/Up/Down/editing for every cb 0..=3 x hb 0..=7 (+ larger thorough configs); in every transition the NUL-split raw history buffer must equal the reference deque (dedupe, oldest-first minimal eviction, no recording of empty/oversize lines) and Up/Down must show exactly the reference entry. Scale run: history buffers of 258 (66..515) bytes filled by checked prefill with ~100 short entries, entries of increasing length and four long entries (offsets beyond 255, evictions of several entries, re-submission of old and recent entries, lines of exactly the history size), then a depth-2 search from each. Endurance run: ~200 000 keys of repeated cycles, every step under the monitors. Two instances: every interleaving of <= 3-5 events (and, in C01 and C05, every sandwich A^i B^j A^k of five events) between two fresh Cli instances, each compared with its solo run.",
          "Forks allowed where the statement is silent: Down while not navigating, navigation position after an unrecorded Enter.", "4 C10"),
  "C15": ("model_checking", "explicit-state BFS over the real Cli; write/flush event order monitor on every call",
-         "The recording sink logs write and flush calls; after every successful API call of every explored transition (the C06 sessions - typing, recall, completion, handler output, Cli::write, set_prompt, one-byte sink, byte-granular - plus sessions over a derived enum and a command group that print help listings, command help, parse errors and handler errors) no written byte may follow the last flush.",
+         "The recording sink logs write and flush calls; after every successful API call of every explored transition (the C06 sessions - typing, recall, completion, handler output, Cli::write, set_prompt, one-byte sink, byte-granular - plus sessions over a derived enum and a command group that print help listings, command help, parse errors and handler errors) no written byte may follow the last flush. A second engine (mcx-progs) applies the same rule to every line that the derived-parser and help enumerations type into a Cli (values, every kind of parse error, help listings, command and nested help).",
          "Observed at call return only.", "4 C15"),
  "C02": ("model_checking", "explicit-state closure of the real Utf8Accum / InputGenerator over all byte values in lock-step with a strict Table 3-7 decoder; raw-byte Cli sessions",
          "(a) every reachable state of the real Utf8Accum x all 256 byte values, (b) every reachable state of the real InputGenerator x boundary bytes (thorough: all 256), both compared with a strict Unicode Table 3-7 decoder: whatever is emitted must be exactly one well-formed scalar and every contiguous well-formed sequence must be emitted; (c) raw-byte sessions through the whole Cli where every string handed to the handler, the edited line, history contents and echoed bytes must be valid UTF-8.",
@@ -106,7 +106,7 @@ def main():
         "engines": [
             {"name": "mcx", "path": "/verif/mc/mcx", "serves_properties": sorted(p for p in CHECKS if p not in ("C09", "C11", "C12")),
              "kind_free_text": "explicit-state BFS / complete bounded enumeration that executes the real embedded-cli code on every transition; reference models in refs.rs"},
-            {"name": "mcx-progs", "path": "/verif/mc/mcx-progs", "serves_properties": ["C09", "C11", "C12", "C16"],
+            {"name": "mcx-progs", "path": "/verif/mc/mcx-progs", "serves_properties": ["C09", "C11", "C12", "C15", "C16"],
              "kind_free_text": "programs x inputs: declarations enumerated by mc/gen/gen.py, compiled with the repository's derive macros, every bounded input line executed and compared with a declaration interpreter (interp.rs)"},
         ],
         "checks": checks,
